@@ -12,6 +12,7 @@
 -/
 import RigoProofs.C14Frame
 import RigoProofs.C14Jail
+import RigoProofs.C14FrameFold
 open Std
 
 namespace Rigo.C14
@@ -192,15 +193,22 @@ theorem signer_untouched (s : St) (H : Int) (rl : KMap Delegatee) (v : VoteIn) (
     s'.delegs = s.delegs ∧ s'.frozen = s.frozen ∧ s'.accts = s.accts ∧ s'.props = s.props :=
   C14L.signer_untouched s H rl v issued hs s' n h
 
-/-- the full block-level statement for blocks WITH votes (NOT proved as one theorem): after `beginBlock`, a
+/-- **slash_jail_frame** (the block-level frame for blocks WITH votes and evidence): after `beginBlock`, a
     delegatee entry differs from before only if its address is in the evidence or it belongs to a non-signing
-    vote.  It follows from `beginBlock_phases`, `slash_frame`, `processVote_unsigned`, `signer_untouched` by a
-    fold over the votes; the fold (with the per-vote ledger lookups) is what is missing. -/
-def slash_jail_frame_statement : Prop :=
-  ∀ (s : St) (h : Header), h.height = s.lastHeight + 1 → (beginBlock s h).2.panic = "" →
+    vote — "a validator that signed is untouched", and so is every bystander.  The per-vote ledger look-ups
+    are made in the state left by the slashing and by earlier votes; the fold invariant (`C14F.FrameInv`:
+    entries outside the touched keys are unchanged and every entry keeps its address) carries the statement
+    about the INITIAL ledger through.  Holds on panic paths too (`C14F.slash_jail_frame_any`). -/
+theorem slash_jail_frame :
+    ∀ (s : St) (h : Header), h.height = s.lastHeight + 1 → (beginBlock s h).2.panic = "" →
     ∀ k : String, (∀ a ∈ h.evidence, k ≠ ledgerKey a) →
       (∀ v ∈ h.votes, v.signed = false → ∀ d, s.delegs.fin[ledgerKey v.addr]? = some d → k ≠ ledgerKey d.addr) →
-      (beginBlock s h).1.delegs.fin[k]? = s.delegs.fin[k]?
+      (beginBlock s h).1.delegs.fin[k]? = s.delegs.fin[k]? :=
+  C14F.slash_jail_frame
+
+/-- non-vacuity: block 2 of a four-validator chain with evidence against E, A signing and B absent — the
+    entries of A (signer) and C (bystander) are unchanged while those of B and E do change (`C14F.ex_touched`). -/
+example := C14F.ex_hyps
 
 /-! ## non-vacuity and a worked example -/
 
